@@ -696,7 +696,13 @@ fn with_pool(
                     let serial = diesel_marker(c).unwrap_or(-1);
                     let mut g = s2.lock().unwrap();
                     g.calls.push((2, serial, std::thread::current().id()));
-                    if g.flags.get(&serial).copied().unwrap_or(0) & 2 != 0 {
+                    let f = g.flags.get(&serial).copied().unwrap_or(0);
+                    if f & 16 != 0 {
+                        // fails this once; a second question would be answered with Ok
+                        let _ = g.flags.insert(serial, f & !16);
+                        return Err(deadpool_diesel::Error::Ping(diesel::result::Error::NotFound));
+                    }
+                    if f & 2 != 0 {
                         Err(deadpool_diesel::Error::Ping(diesel::result::Error::NotFound))
                     } else {
                         Ok(())
@@ -729,7 +735,8 @@ pub fn gen_case(rt: &tokio::runtime::Runtime, rng: &mut Rng, mgr: i64, maxlabels
     let flag_choices: Vec<i64> = match (mgr, method) {
         (0, _) => vec![],
         (1, _) => vec![0, 1, 2, 3, 8, 10, 16, 16, 18],
-        (2, 2) | (2, 3) => vec![1, 2, 3, 4, 6],
+        (2, 3) => vec![1, 2, 3, 4, 6, 16, 16],
+        (2, 2) => vec![1, 2, 3, 4, 6],
         _ => vec![1, 4],
     };
     let mut tail: Option<Vec<Vec<i64>>> = None;
